@@ -1,16 +1,17 @@
 ------------------------------ MODULE J_Upwind ------------------------------
 (***************************************************************************)
 (* C17 judge.  Cases recorded from pp.ad / pp.Upwind on real grids:        *)
+(* Every case carries outs = one result per flux magnitude 2^e (e = outs[k].e).*)
 (*  kind "sel": g (incidence), s (flux signs), bc, n (components),         *)
-(*      out.U / out.D / out.N = [shape, ent] of the matrices stored under  *)
+(*      outs[k].U / .D / .N   = [shape, ent] of the matrices stored under  *)
 (*      upwind_matrix_key, bound_transport_dir_matrix_key,                 *)
 (*      bound_transport_neu_matrix_key after Upwind.discretize             *)
-(*      (ent = nonzero entries <<row, col, value>>), out.ok = FALSE if     *)
+(*      (ent = nonzero entries <<row, col, value>>), ok = FALSE if         *)
 (*      discretize raised                                                  *)
 (*  kind "tr":  g, flux (integers), vol (rationals), inits (integer cell   *)
-(*      vectors), dts (rationals), out.A = entries of the matrix returned  *)
+(*      vectors), dts (rationals), outs[k].A = entries of the matrix returned *)
 (*      by Upwind.assemble_matrix_rhs (div * diag(flux) * upwind),         *)
-(*      out.rhs = its right-hand side for zero boundary values             *)
+(*      divided by 2^e, outs[k].rhs = its right-hand side / 2^e            *)
 (* Clauses: Selection, DirSupport, NeuSupport (faces with nonzero flux;    *)
 (* on the other faces only: boundary entries sit on the diagonal of a      *)
 (* boundary face of the matching type), TransportConserves,                *)
@@ -20,39 +21,54 @@ EXTENDS Judge, Upwind
 
 IsK(k) == C.kind = k
 G == C.g
-O == C.out
+\* every case is realised at several flux magnitudes: C.outs[k] is the result for the flux multiplied by
+\* 2^(C.outs[k].e).  The selection clauses are scale free (they depend on the sign only); for transport the
+\* harness hands over A and rhs in units of the scale (exact division by a power of two) and the physical
+\* step is dt / scale, so the exact step below is the same for every scale.
+Outs == C.outs
+ForOuts(P(_)) == \A k \in 1..Len(Outs) : P(Outs[k])
 
 InFamily == Check("InFamily",
-  IF IsK("sel") THEN UpwindFamily(G, C.s, C.bc, C.n)
-  ELSE /\ WellFormed(G) /\ DivFree(G, C.flux) /\ NoFlow(G, C.flux)
-       /\ \A j \in 1..Len(C.dts) : CFL(G, C.flux, C.vol, C.dts[j])
-       /\ Len(C.vol) = G.nc /\ \A i \in 1..Len(C.inits) : Len(C.inits[i]) = G.nc)
+  /\ Len(Outs) >= 1
+  /\ IF IsK("sel") THEN UpwindFamily(G, C.s, C.bc, C.n)
+     ELSE /\ WellFormed(G) /\ DivFree(G, C.flux) /\ NoFlow(G, C.flux)
+          /\ \A j \in 1..Len(C.dts) : CFL(G, C.flux, C.vol, C.dts[j])
+          /\ Len(C.vol) = G.nc /\ \A i \in 1..Len(C.inits) : Len(C.inits[i]) = G.nc)
 
 NoDup(ent) == Cardinality(Range(ent)) = Len(ent)
 
 Selection == Check("Selection", IsK("sel") =>
-  /\ O.ok
-  /\ O.U.shape = <<G.nf * C.n, G.nc * C.n>> /\ NoDup(O.U.ent)
-  /\ OnNZ(Range(O.U.ent), G, C.s, C.n) = UpwindRef(G, C.s, C.bc, C.n))
+  LET ref == UpwindRef(G, C.s, C.bc, C.n) IN
+  ForOuts(LAMBDA O :
+    /\ O.ok
+    /\ O.U.shape = <<G.nf * C.n, G.nc * C.n>> /\ NoDup(O.U.ent)
+    /\ OnNZ(Range(O.U.ent), G, C.s, C.n) = ref))
 
-DirSupport == Check("DirSupport", (IsK("sel") /\ O.ok) =>
-  /\ O.D.shape = <<G.nf * C.n, G.nf * C.n>> /\ NoDup(O.D.ent)
-  /\ OnNZ(Range(O.D.ent), G, C.s, C.n) = BoundDirRef(G, C.s, C.bc, C.n)
-  /\ \A e \in Range(O.D.ent) : e[1] = e[2] /\ C.bc[(e[1] \div C.n) + 1] = "dir")
+DirSupport == Check("DirSupport", IsK("sel") =>
+  LET ref == BoundDirRef(G, C.s, C.bc, C.n) IN
+  ForOuts(LAMBDA O : O.ok =>
+    /\ O.D.shape = <<G.nf * C.n, G.nf * C.n>> /\ NoDup(O.D.ent)
+    /\ OnNZ(Range(O.D.ent), G, C.s, C.n) = ref
+    /\ \A e \in Range(O.D.ent) : e[1] = e[2] /\ C.bc[(e[1] \div C.n) + 1] = "dir"))
 
-NeuSupport == Check("NeuSupport", (IsK("sel") /\ O.ok) =>
-  /\ O.N.shape = <<G.nf * C.n, G.nf * C.n>> /\ NoDup(O.N.ent)
-  /\ {<<e[1], e[2]>> : e \in OnNZ(Range(O.N.ent), G, C.s, C.n)} = BoundNeuRef(G, C.s, C.bc, C.n)
-  /\ \A e \in Range(O.N.ent) : e[1] = e[2] /\ C.bc[(e[1] \div C.n) + 1] = "neu")
+NeuSupport == Check("NeuSupport", IsK("sel") =>
+  LET ref == BoundNeuRef(G, C.s, C.bc, C.n) IN
+  ForOuts(LAMBDA O : O.ok =>
+    /\ O.N.shape = <<G.nf * C.n, G.nf * C.n>> /\ NoDup(O.N.ent)
+    /\ {<<e[1], e[2]>> : e \in OnNZ(Range(O.N.ent), G, C.s, C.n)} = ref
+    /\ \A e \in Range(O.N.ent) : e[1] = e[2] /\ C.bc[(e[1] \div C.n) + 1] = "neu"))
 
 \* explicit step with porepy's matrix and right-hand side:  V (c' - c) / dt + A c = rhs
-StepR(c, dt) ==
+StepR(O, c, dt) ==
   LET Ac == MatVec(Range(O.A), c, G.nc)
   IN [i \in 1..G.nc |-> RSub(R(c[i]), RDiv(RMul(dt, R(Ac[i] - O.rhs[i])), C.vol[i]))]
-AllSteps(P(_, _)) == \A i \in 1..Len(C.inits) : \A j \in 1..Len(C.dts) : P(C.inits[i], StepR(C.inits[i], C.dts[j]))
+AllSteps(O, P(_, _)) ==
+  \A i \in 1..Len(C.inits) : \A j \in 1..Len(C.dts) : P(C.inits[i], StepR(O, C.inits[i], C.dts[j]))
 
-TransportConserves == Check("TransportConserves", IsK("tr") => O.ok /\
-  AllSteps(LAMBDA c, c2 : REq(RTotal(C.vol, c2), RTotal(C.vol, [i \in 1..Len(c) |-> R(c[i])]))))
-TransportBounds == Check("TransportBounds", (IsK("tr") /\ O.ok) =>
-  AllSteps(LAMBDA c, c2 : \A i \in 1..Len(c) : RLe(R(Min(Range(c))), c2[i]) /\ RLe(c2[i], R(Max(Range(c))))))
+TransportConserves == Check("TransportConserves", IsK("tr") =>
+  ForOuts(LAMBDA O : O.ok /\
+    AllSteps(O, LAMBDA c, c2 : REq(RTotal(C.vol, c2), RTotal(C.vol, [i \in 1..Len(c) |-> R(c[i])])))))
+TransportBounds == Check("TransportBounds", IsK("tr") =>
+  ForOuts(LAMBDA O : O.ok =>
+    AllSteps(O, LAMBDA c, c2 : \A i \in 1..Len(c) : RLe(R(Min(Range(c))), c2[i]) /\ RLe(c2[i], R(Max(Range(c)))))))
 =============================================================================
